@@ -143,6 +143,13 @@ def leaf_cases(rng: random.Random, name: str, n: int):
                 real = "E ValueError"
             out.append((f"leaf hopo i:{thr} i:{tk} o:{bits(note)} b:{int(note.is_chord())} b:{int(tap)} b:{int(forced)} "
                         + ("n:" if prev is None else "o:") + f" i:{pt} o:{bits(pn)}", real))
+        elif name == "scan":
+            from .props import C01
+            res, tempo = C01.rand_map(rng, rng.choice([1, 2, 4, 7]))
+            be = C01.build_bpm_events(res, tempo)
+            tk = rng.choice([t for t, _ in tempo] + [max(0, t - 1) for t, _ in tempo] + [rng.randint(0, tempo[-1][0] + 50), -1, -7])
+            h = rng.randint(0, len(tempo) + 1)
+            out.append((f"leaf scan {arg(tk)} {arg(h)} l:{';'.join(str(t) for t, _ in tempo)}", call(be._index_of_proximal_event, tk, h)))
         elif name in ("tickadd", "after", "during"):
             from chartparse.instrument import SpecialEvent
             T, L = rng.choice([0, 5, rng.randint(0, 5000)]), rng.choice([0, 0, 1, rng.randint(0, 600)])
@@ -232,8 +239,9 @@ def validate(ctx: fw.Ctx, out: fw.Outcome, leaves):
     mod = driver.run_parallel([c[0] for c in cases])
     stats = {"leaf": 0, "expr": 0, "unsupported": 0}
     for (req, real, tag), m in zip(cases, mod):
-        if m.startswith(("E internal:unsupported", "E internal:NameError untranslatable")):
-            # outside the embedded subset's domain, or a leaf whose source the translator refused: the evaluator makes no claim
+        if m.startswith(("E internal:unsupported", "E internal:NameError")):
+            # outside the embedded subset's domain, or a leaf whose source the translator refused (its stub names an unbound variable):
+            # the evaluator makes no claim
             stats["unsupported"] += 1
             continue
         stats["leaf" if tag.startswith("leaf") else "expr"] += 1
